@@ -66,9 +66,14 @@ def par_q(kind, c, name, desc, defs, **kw):
     return Q('%s:%s-parallel:%s' % (kind, CTR_CIPH[c], name), 'lcp.c', desc, defs=d, sanitize=True, timeout=kw.pop('timeout', 900), **kw)
 
 def par_seq_queries(tier):
-    return [par_q('seq', c, s, 'operation sequence %s (I init, K set_key, E encrypt 3 blocks, D decrypt, X cleanup, Z zero; lower case = second object) on %s parallel-ECB objects (data concrete, justified by C08), back end chosen symbolically: '
-                  'calls return 1 exactly while live, nothing leaks, nothing freed twice, every freed block is zero' % (s, CTR_CIPH[c]), {'OB_SEQ': 1, 'SEQ': '"%s"' % s})
-            for c in (1, 2, 3) for s in (PSEQ_QUICK if tier == 'quick' else PSEQ_QUICK + PSEQ_MORE)]
+    qs = []
+    for c in (1, 2, 3):
+        for sel in ((0, 1, 2) if c == 1 else (0, 1)):
+            be = ['generic', 'vec128', 'vec256'][sel]
+            for s in (PSEQ_QUICK if tier == 'quick' else PSEQ_QUICK + PSEQ_MORE):
+                qs.append(par_q('seq', c, '%s:%s' % (be, s), 'operation sequence %s (I init, K set_key, E encrypt 3 blocks, D decrypt, X cleanup, Z zero; lower case = second object) on %s parallel-ECB objects served by the %s back end '
+                                '(data concrete, justified by C08): calls return 1 exactly while live, nothing leaks, nothing freed twice, every freed block is zero' % (s, CTR_CIPH[c], be), {'OB_SEQ': 1, 'SEQ': '"%s"' % s, 'BACKSEL': sel}))
+    return qs
 
 def par_wipe_queries(tier):
     return [par_q('wipe', c, 'arbitrary', 'cleanup of a %s parallel-ECB object whose key schedule holds arbitrary bytes: every byte is zero at free()' % CTR_CIPH[c], {'OB_WIPE': 1}) for c in (1, 2, 3)]
